@@ -129,6 +129,17 @@ pub fn run(ctx: &mut Ctx) {
         }
         ctx.check("-:radix-family:neg", &json!({"-": [format!("-{}", x.as_str().unwrap())]}), &null);
     }
+    // white-space blocks (see cmp): as arithmetic operands
+    for x in al::ws_block_strings() {
+        if !ctx.mine() {
+            continue;
+        }
+        for k in OPS {
+            ctx.edge();
+            ctx.check(&format!("{}:ws-block:1", k), &op(k, vec![x.clone()]), &null);
+            ctx.check(&format!("{}:ws-block:2", k), &op(k, vec![json!(2), json!({"var": "s"})]), &json!({"s": x}));
+        }
+    }
     // factor boundaries: products / sums of 2..4 integers that cross 2^53, 2^63, 2^64
     {
         let fb = al::factor_boundaries();
@@ -245,6 +256,25 @@ pub fn run(ctx: &mut Ctx) {
         for kk in VARIADIC {
             ctx.check(&format!("{}:size-probe:V", kk), &op(kk, args.clone()), &Value::Array(data.clone()));
         }
+    }
+    // capacity probes: n distinct numeric strings (and distinct prefixed strings) in one rule, then the first
+    // ones again, under both coercions
+    for n in al::size_classes(ctx.tier_thorough) {
+        if !ctx.mine() {
+            continue;
+        }
+        let mut strs: Vec<Value> = (0..n).map(|i| json!(format!("{}.5", i))).collect();
+        strs.extend((0..n.min(4)).map(|i| json!(format!("{}.5", i))));
+        let mut px: Vec<Value> = (0..n).map(|i| json!(format!("{}px", i))).collect();
+        px.extend((0..n.min(4)).map(|i| json!(format!("{}px", i))));
+        ctx.edge();
+        for k in VARIADIC {
+            ctx.check(&format!("{}:capacity:numeric-strings", k), &op(k, strs.clone()), &null);
+            ctx.check(&format!("{}:capacity:prefixed-strings", k), &op(k, px.clone()), &null);
+        }
+        // parseFloat first, Number afterwards, on the same strings (and the other way round)
+        ctx.check("capacity:coercions-mixed", &json!({"cat": [{"+": px.clone()}, "|", {"map": [px.clone(), {"==": [{"var": ""}, 1]}]}, "|", {"+": px.clone()}]}), &null);
+        ctx.check("capacity:coercions-mixed:2", &json!({"merge": [{"map": [strs.clone(), {"<": [{"var": ""}, 2]}]}, {"*": strs.iter().take(8).cloned().collect::<Vec<_>>()}, {"max": strs.clone()}]}), &null);
     }
     // length 4, 5
     let s = small();
